@@ -21,6 +21,7 @@ HOOKS = [
     'pySDC.implementations.hooks.log_step_size.LogStepSize',
     'pySDC.implementations.hooks.log_errors.LogGlobalErrorPostStep',
     'pySDC.implementations.hooks.log_errors.LogLocalErrorPostStep',
+    'vf.env.block.DiagnosticHook',  # environment, not under test: causes work outside the steps
 ]
 POST = ('vf.props._hist:check_stats',)
 
@@ -100,13 +101,16 @@ def run(rep, tier):
     base_ball = [c for c in c09.ball(1) if c['limiter'] in ('none', 'rel_min_slope') and c['tend'] != 'inside_first']
     if tier == 'quick':
         plan.append(('estimate scripts <=2 deviations (4-letter alphabet), ball radius 1', [c09.to_cfg(c, est_n=4, hook_classes=HOOKS, post_checks=POST) for c in base_ball], 2))
-        plan.append(('direct restart requests (unchanged dt), <=3', [c09.cfg(P=P, adaptive=None, restart_script=True, hook_classes=HOOKS, post_checks=POST, restarting={'max_restarts': m, 'restart_from_first_step': ff, 'crash_after_max_restarts': False}) for P in (2, 3) for m in (1, 2) for ff in (False, True)], 3))
+        plan.append(('direct restart requests (unchanged dt), P=2, <=3', [c09.cfg(P=2, adaptive=None, restart_script=True, hook_classes=HOOKS, post_checks=POST, restarting={'max_restarts': m, 'restart_from_first_step': ff, 'crash_after_max_restarts': False}) for m in (1, 2) for ff in (False, True)], 3))
+        plan.append(('direct restart requests (unchanged dt), P=3, <=2', [c09.cfg(P=3, adaptive=None, restart_script=True, hook_classes=HOOKS, post_checks=POST, restarting={'max_restarts': m, 'restart_from_first_step': ff, 'crash_after_max_restarts': False}) for m in (1, 2) for ff in (False, True)], 2))
         plan.append(('convergence patterns, P<=3, K<=2, L<=2 incl. partially filled last block', [block.default_cfg(P=P, K=K, L=L, predict='pfasst_burnin' if L > 1 else None, Tend=0.125 * (P + 1), hook_classes=HOOKS, post_checks=POST, checks=('grammar',), max_blocks=3) for P in (1, 2, 3) for K in (1, 2) for L in (1, 2)], None))
         plan.append(('the same, run started at a negative time with a step boundary exactly at 0', [block.default_cfg(P=P, K=1, L=L, predict='pfasst_burnin' if L > 1 else None, t0=-0.25, Tend=-0.25 + 0.125 * (P + 1), hook_classes=HOOKS, post_checks=POST, checks=('grammar',), max_blocks=3) for P in (1, 2, 3) for L in (1, 2)], None))
     else:
-        plan.append(('estimate scripts <=2 deviations, ball radius 1 incl P=4', [c09.to_cfg(c, hook_classes=HOOKS, post_checks=POST) for c in c09.ball(1, Ps=(1, 2, 3, 4)) if c['tend'] != 'inside_first'], 2))
+        plan.append(('estimate scripts <=2 deviations (4-letter alphabet), ball radius 1 incl P=4', [c09.to_cfg(c, est_n=4, hook_classes=HOOKS, post_checks=POST) for c in c09.ball(1, Ps=(1, 2, 3, 4)) if c['tend'] != 'inside_first'], 2))
+        plan.append(('estimate scripts <=2 deviations (all six letters), base with P in 2..3', [c09.to_cfg(dict(c09.ball(0)[0], P=P), hook_classes=HOOKS, post_checks=POST) for P in (2, 3)], 2))
         plan.append(('estimate scripts <=3 deviations (4-letter alphabet), base', [c09.to_cfg(c, est_n=4, hook_classes=HOOKS, post_checks=POST) for c in c09.ball(0)], 3))
-        plan.append(('direct restart requests (unchanged dt), <=4', [c09.cfg(P=P, adaptive=None, restart_script=True, hook_classes=HOOKS, post_checks=POST, restarting={'max_restarts': m, 'restart_from_first_step': ff, 'crash_after_max_restarts': False}) for P in (2, 3, 4) for m in (1, 2, 3) for ff in (False, True)], 4))
+        plan.append(('direct restart requests (unchanged dt), P in 2..3, <=4', [c09.cfg(P=P, adaptive=None, restart_script=True, hook_classes=HOOKS, post_checks=POST, restarting={'max_restarts': m, 'restart_from_first_step': ff, 'crash_after_max_restarts': False}) for P in (2, 3) for m in (1, 2, 3) for ff in (False, True)], 4))
+        plan.append(('direct restart requests (unchanged dt), P=4, <=3', [c09.cfg(P=4, adaptive=None, restart_script=True, hook_classes=HOOKS, post_checks=POST, restarting={'max_restarts': m, 'restart_from_first_step': ff, 'crash_after_max_restarts': False}) for m in (1, 2) for ff in (False, True)], 3))
         plan.append(('convergence patterns, P<=3, K<=3, L<=3 incl. partially filled last block', [block.default_cfg(P=P, K=K, L=L, predict='pfasst_burnin' if L > 1 else None, Tend=0.125 * (P + 1), hook_classes=HOOKS, post_checks=POST, checks=('grammar',), max_blocks=3) for P in (1, 2, 3) for K in (1, 2, 3) for L in (1, 2, 3)], None))
         plan.append(('the same, run started at a negative time with a step boundary exactly at 0', [block.default_cfg(P=P, K=K, L=L, predict='pfasst_burnin' if L > 1 else None, t0=-0.25, Tend=-0.25 + 0.125 * (P + 1), hook_classes=HOOKS, post_checks=POST, checks=('grammar',), max_blocks=3) for P in (1, 2, 3) for K in (1, 2) for L in (1, 2)], None))
     bounds = []
